@@ -21,11 +21,13 @@ LEVEL = 'exploration'
 RULE = ('each program = 10-80 recorded public calls on one endpoint (hostile-peer traffic incl. header blocks with repeated '
         'content-length / host fields, settings frames with many keys, API fuzzing with dict-valued arguments, error paths, groups '
         'of streams closed together until a lowered MAX_CLOSED_STREAMS is exceeded, then late frames on the oldest of them); '
-        'replayed twice in-process and in fresh interpreters under PYTHONHASHSEED in {0,1,2,12345,<seed-derived>} (8 values in '
+        'replayed twice in-process (the second time in the opposite order of programs) and in fresh interpreters (every other one in '
+        'reverse order: no connection may depend on the connections served before it) under PYTHONHASHSEED in {0,1,2,12345,<seed-derived>} (8 values in '
         'thorough); non-trivial = program with >= 5 steps whose digests were compared across all replays; distinct = hash of '
         'the program')
 ASSUMPTIONS = ['exception message text is excluded from the transcript (it legitimately embeds set reprs / addresses)']
 PROP = 'C28'
+SHARED_FIELDS = [(b'x-shared-a', b'1'), (b'x-shared-b', b'two'), (b'x-shared-c', b' three'), (b'accept', b'*/*'), (b'x-token', b'secret')]
 
 
 def _enc(x):
@@ -80,6 +82,17 @@ def record_programs(seed, start, count):
     import h2.exceptions
     progs = []
 
+    import hpack
+
+    def retype(rng, hs):
+        """The same fields as plain tuples, HeaderTuples or NeverIndexedHeaderTuples (a small shared pool of extra fields makes
+        different programs send equal pairs in different forms)."""
+        out = []
+        for n, v in list(hs) + [rng.choice(SHARED_FIELDS) for _ in range(rng.choice([0, 1, 2]))]:
+            r0 = rng.random()
+            out.append((n, v) if r0 < 0.5 else hpack.HeaderTuple(n, v) if r0 < 0.75 else hpack.NeverIndexedHeaderTuple(n, v))
+        return out
+
     class Rec(core.Tap):
         def __init__(self, conn):
             core.Tap.__init__(self, conn, keep_log=False)
@@ -107,7 +120,7 @@ def record_programs(seed, start, count):
         if kind == 'hostile':
             for _ in range(rng.choice([5, 15, 40])):
                 if e_client and rng.random() < 0.3:
-                    r = t.call('send_headers', nsid, gen.valid_headers(rng, 'request'), end_stream=rng.random() < 0.5)
+                    r = t.call('send_headers', nsid, retype(rng, gen.valid_headers(rng, 'request')), end_stream=rng.random() < 0.5)
                     if r.ok:
                         pg.note_e_stream(nsid)
                     nsid += 2
@@ -212,8 +225,8 @@ def record_programs(seed, start, count):
                                  'update_settings', 'ack', 'push', 'altsvc', 'window', 'next', 'recv', 'close'])
                 sid = rng.choice(live + [1, 2, 3, 99]) if live else rng.choice([1, 2, 3])
                 if op == 'send_headers':
-                    hs = rng.choice([gen.valid_headers(rng, 'request'), gen.valid_headers(rng, 'response'),
-                                     gen.hostile_headers(rng, 'request'), [(b'x-t', b'1')]])
+                    hs = retype(rng, rng.choice([gen.valid_headers(rng, 'request'), gen.valid_headers(rng, 'response'),
+                                                 gen.hostile_headers(rng, 'request'), [(b'x-t', b'1')]]))
                     s2 = nsid if e_client and rng.random() < 0.6 else sid
                     r = t.call('send_headers', s2, hs, end_stream=rng.random() < 0.3)
                     if r.ok and s2 not in live:
@@ -265,8 +278,11 @@ def _trip(name):
     return f
 
 
-def replay_programs(progs):
-    """Re-execute every program; returns {idx: [digest per step]} and tripwire hits."""
+def replay_programs(progs, reverse=False):
+    """Re-execute every program; returns {idx: [digest per step]} and tripwire hits.  With reverse the programs run in the
+    opposite order: what one connection does must not depend on which other connections the process served before it."""
+    if reverse:
+        progs = list(reversed(progs))
     from h2mon import core
     import random, uuid, socket
     saved = []
@@ -337,8 +353,9 @@ def child_main(argv):
         path, outp = argv[1], argv[2]
         with open(path) as f:
             progs = json.load(f)
-        d1, trips, naudit, aevents = replay_programs(progs)
-        d2, _, _, _ = replay_programs(progs)        # second replay in the same process
+        rev = len(argv) > 3 and argv[3] == 'reverse'
+        d1, trips, naudit, aevents = replay_programs(progs, reverse=rev)
+        d2, _, _, _ = replay_programs(progs, reverse=not rev)        # second replay in the same process, other order
         with open(outp, 'w') as f:
             json.dump({'first': d1, 'second': d2, 'trips': trips, 'audit_events': naudit, 'audit_names': aevents}, f)
 
@@ -374,7 +391,8 @@ def parent_main(seed, tier, jobs, cases):
             outs = {}
             for hs in hashseeds:
                 of = os.path.join(tmp, 'out-%s.json' % hs)
-                p = subprocess.run([runner.PY, '-m', 'h2mon.checks.c28', 'replay', pf, of], env=runner.child_env(hs),
+                order = 'reverse' if hashseeds.index(hs) % 2 else 'forward'
+                p = subprocess.run([runner.PY, '-m', 'h2mon.checks.c28', 'replay', pf, of, order], env=runner.child_env(hs),
                                    cwd=runner.HERE, timeout=1800, stderr=subprocess.PIPE)
                 if p.returncode != 0:
                     res['failed'] = 'replay (hashseed %s) failed: %s' % (hs, p.stderr.decode('utf-8', 'replace')[-1500:])
